@@ -62,6 +62,9 @@ var alphabet = []op{
 	{Kind: "rmnode", ID: "f"},
 	{Kind: "setthr", Type: "t1", N: 1},
 	{Kind: "setthrs", Type: "t1", N: 1},
+	{Kind: "setthr", Type: "t2", N: 2}, // first use of an event type the broker has not seen
+	{Kind: "setthrs", Type: "t2", N: 2},
+	{Kind: "getthr", Type: "t2"},
 	{Kind: "getthr", Type: "t1"},
 	{Kind: "getthrs", Type: "t1"},
 	{Kind: "isany", Type: "t1"},
